@@ -160,6 +160,14 @@ pub(crate) fn fri_proof_of_work<
 ) -> F {
     let min_leading_zeros = config.proof_of_work_bits + (64 - F::order().bits()) as u32;
 
+    #[cfg(feature = "verif_hooks")]
+    if let Some(Some(w)) = crate::verif_hooks::with_knobs(|k| k.force_pow_witness) {
+        let pow_witness = F::from_canonical_u64(w);
+        challenger.observe_element(pow_witness);
+        let _pow_response = challenger.get_challenge();
+        return pow_witness;
+    }
+
     // The easiest implementation would be repeatedly clone our Challenger. With each clone, we'd
     // observe an incrementing PoW witness, then get the PoW response. If it contained sufficient
     // leading zeros, we'd end the search, and store this clone as our new challenger.
